@@ -672,6 +672,13 @@ func init() {
 		Units:  func(tier string) []fw.Unit { return scenarioUnits(c15RaceScenarios(tier)) },
 		Replay: replayFn(c15RaceScenarios),
 	})
+	// C03: a Ping received after the endpoint's own Close frame is still answered (RFC 6455 5.5.2:
+	// until a Close frame has been *received*), and the peer's Close that follows is read
+	c03dc := pickScenarios(c15Scenarios, "during-close-handshake/")
+	fw.Register(fw.Part{Prop: "C03", Name: "s.duringclose",
+		Units:  func(tier string) []fw.Unit { return reprefixed(scenarioUnits(c03dc(tier))) },
+		Replay: reprefixedReplay(replayFn(c03dc)),
+	})
 	fw.Register(fw.Part{Prop: "C15", Name: "s.ping",
 		Units:  func(tier string) []fw.Unit { return scenarioUnits(c15Scenarios(tier)) },
 		Replay: replayFn(c15Scenarios),
